@@ -95,6 +95,10 @@ def frame_obligations(it, fr, contract, exceptional, tag, line):
     allowed_fields = set()
     saved = it.heap_override
     for target in mods:
+        if target == "fs()":
+            if "fs_addr" in it.path.memo:
+                allowed_cells.add(it.path.memo["fs_addr"])
+            continue
         expr = ast.parse(target, mode="eval").body
         try:
             it.heap_override = fr.entry_heap
@@ -125,6 +129,8 @@ def frame_obligations(it, fr, contract, exceptional, tag, line):
             continue
         if old.native is not None:
             if addr in allowed_cells:
+                continue
+            if any((a2, "repo") in allowed_fields or a2 in allowed_cells for a2 in [addr]):
                 continue
             if hasattr(old.native, "frame_eq"):
                 for nme, f in old.native.frame_eq(it, old, cur):
@@ -255,6 +261,21 @@ _JOB = None
 
 
 def _path_job(prefix):
+    """Worker entry: everything is returned as a JSON string so that nothing unpicklable
+    (z3 terms, cyclic values) can wedge the pool."""
+    import sys
+
+    sys.setrecursionlimit(20000)
+    try:
+        out = _path_job_inner(prefix)
+        return json.dumps(out, default=str)
+    except BaseException as e:  # pragma: no cover
+        return json.dumps({"alternatives": [], "records": [], "dropped": [], "inlined": [], "called": [],
+                           "outcome": None, "unsupported": [], "solver": 0.0,
+                           "errors": [f"worker failure {type(e).__name__}: {str(e)[:300]}\n" + traceback.format_exc(limit=8)]})
+
+
+def _path_job_inner(prefix):
     """Explore one path and discharge its obligations (runs in a forked worker)."""
     repo, registry, func, contract, feas_ms, z3_ms = _JOB
     out = {"alternatives": [], "records": [], "dropped": [], "inlined": [], "called": [],
@@ -335,7 +356,7 @@ def verify_function(repo, registry, qualname, feas_ms=1500, solve_now=True, z3_m
             if seen_paths > MAX_PATHS:
                 rep.unsupported.append(f"more than {MAX_PATHS} paths")
                 break
-            out = _path_job(prefix)
+            out = json.loads(_path_job(prefix))
             worklist.extend(out["alternatives"])
             absorb(out)
     else:
@@ -349,7 +370,7 @@ def verify_function(repo, registry, qualname, feas_ms=1500, solve_now=True, z3_m
                 for r in outstanding:
                     if r.ready():
                         progressed = True
-                        out = r.get()
+                        out = json.loads(r.get())
                         absorb(out)
                         for alt in out["alternatives"]:
                             seen_paths += 1
